@@ -5,6 +5,18 @@ Families (all enumerated completely inside the stated bound, simplest first):
   P   `#if a op1 b op2 c` without parentheses (precedence / associativity of the #if parser)
   C   #if/#ifdef/#ifndef/#elif/#else chains, nested conditionals, #define inside skipped groups
   M   <= 3 macro definitions from a menu of shapes x <= 2 use sites from a menu
+Second generation (section "second generation families" below; one gcc process per batch, every unit under its own
+presumed file name u<k>.c, a scratch include directory shared by both preprocessors):
+  L   __LINE__ / __FILE__ in sequences of <= 2 (thorough: <= 3) source items from a menu of 27 (plain, in arguments, in
+      bodies, through object-like macros, # and ##, #if, line splices, multi-line comments, multi-line invocations)
+  K   __COUNTER__, #define of predefined macro names (one gcc process per unit: their effects cannot be undone inside a process)
+  D   #line, #error, #warning, #pragma, _Pragma, null directive: forms x operands x contexts (taken / skipped groups)
+  N   #include: 10 operand forms x 19 headers, and every ordered pair of headers (guards, #pragma once, nesting,
+      __INCLUDE_LEVEL__, __FILE__ of headers, quote vs angle lookup)
+  X   lexer: comments, pp-numbers, literals, splices inside tokens, punctuators, digraphs, stray characters, character
+      constants in #if -- each of 97 snippets in up to 5 contexts (top level, skipped group, macro body, argument, stringified argument)
+  U   #undef, every ordered pair of same-name definitions (compatible / incompatible redefinition), `defined` forms,
+      argument shapes (unbalanced brackets, empty arguments, variadic and named variadic, placemarkers), C99 6.10.3.5 examples
 Oracle: `gcc -E -P -std=c99 -pedantic-errors`; units that gcc rejects are excluded.  For #if units a
 C-rule reference evaluator written here (intmax_t/uintmax_t) additionally excludes undefined /
 implementation-defined expressions and names the locus of a disagreement; the verdict itself is
@@ -15,6 +27,7 @@ import os
 import re
 import bisect
 import itertools
+import contextlib
 import subprocess
 
 ID = "C26"
@@ -25,7 +38,17 @@ RULE = ("K1 bounded-exhaustive: (I) every #if expression tree of depth<=1 over 1
         "6 opening forms, optional #else, one nested group at every branch position; (M) every unit of <=3 macro definitions "
         "(distinct names, menu of 29 shapes over 11 names) x <=2 use sites (menu of 56) in which every use names a defined macro and "
         "every definition is referenced.  Distinct non-trivial = distinct (family, operator/shape set, resulting token sequence) "
-        "of a unit that gcc accepts and in which a directive or a macro expansion took effect")
+        "of a unit that gcc accepts and in which a directive or a macro expansion took effect.  Second generation, each family "
+        "a complete product of small menus: (L) every sequence of <=2 (thorough <=3) items of a menu of 27 __LINE__/__FILE__ uses, "
+        "followed by `E __LINE__`; (K) 12 __COUNTER__ units and 5 #define of predefined names; (D) 8 #line forms x 5 line numbers x 3 followers, #line in every group "
+        "context and in a header, #error and #warning with 4 messages x 11 taken/skipped group contexts, 8 #pragma bodies x 11 "
+        "contexts, 8 _Pragma uses, null and malformed directives in skipped groups; (N) 10 #include operand forms x 19 headers plus "
+        "every ordered pair of the 19 headers in quote and angle form; (X) 97 lexer snippets, each in up to 5 contexts (top level, "
+        "skipped group, object-like macro body, macro argument, stringified argument), 24 comment/white-space placements in directive "
+        "lines, 23 character-constant #if expressions and their negations; (U) 11 #undef units, every ordered pair of 9 object-like "
+        "and of 7 function-like definitions of one name, 18 `defined` expressions x definedness of two names x #if/#elif, 117 macro "
+        "calls with unbalanced brackets / empty / variadic / placemarker arguments over 20 macro shapes, 6 examples of C99 "
+        "6.10.3.3-6.10.3.5.  Distinct non-trivial there = distinct (family, feature, gcc verdict, gcc token sequence)")
 ASSUMPTIONS = [
     "oracle: gcc 12 `-E -P -std=c99 -pedantic-errors` is a conforming C99 preprocessor; units it rejects (division by zero, "
     "overflow, invalid paste, wrong argument count, missing variadic argument) are excluded",
@@ -34,12 +57,33 @@ ASSUMPTIONS = [
     "excluded by a reference evaluator in this file, which is cross-checked against gcc on every unit (n_ref_vs_gcc_disagree must be 0)",
     "outputs are compared as preprocessing-token sequences by vf/gen/ctok.py; white space and line structure are not compared, "
     "except inside string literals produced by #",
-    "macro shapes whose result C99 leaves unspecified (#/## evaluation order, several ## in one body) are not in the menu; "
-    "__LINE__/__FILE__/__COUNTER__, #include, #line, #pragma and trigraphs are not explored",
+    "macro shapes whose result C99 leaves unspecified (#/## evaluation order; several ## in one body only where every order "
+    "gives the same result) are not in the menu; trigraphs, __DATE__/__TIME__, -D/-U options and c89/c11 modes are not explored",
+    "second generation units are given to gcc as one stream per batch, each unit preceded by `#line 1 \"u<k>.c\"` (ppci gets "
+    "the unit under the file name u<k>.c), followed by #undef of every name of the family; a unit counts as accepted only if gcc "
+    "prints no diagnostic at all for it (checked by re-running the batch without the diagnosed units); diagnostics are attributed "
+    "through the presumed file names, anything not attributable is re-run by bisection",
+    "__FILE__ is compared literally: both preprocessors run in the same scratch directory with the relative include path `inc`, "
+    "so the main file is \"u<k>.c\", a header found through -I is \"inc/<name>\", a header found next to the main file is \"<name>\"",
+    "__LINE__: when the use lies in a logical line made of several physical lines (backslash-newline) or in a macro invocation that "
+    "spans several lines, C99 does not say which of these lines is `the current source line`; ppci may report any line of that span "
+    "(counted in n_line_policy_differs_from_gcc), everywhere else the number must be gcc's",
+    "__COUNTER__, __INCLUDE_LEVEL__, #warning and named variadic parameters (`args...`) are GNU extensions which ppci implements; "
+    "their reference semantics is gcc's (families K, N, D, U; the last two with gcc run without -pedantic-errors); keys carry `gnu-ext`",
+    "#pragma: gcc -E copies `#pragma ...` lines (and the result of _Pragma) to its output, ppci drops them; lines that start with "
+    "#pragma are removed from both outputs and everything else is compared (so: neighbouring tokens intact, nothing else emitted, "
+    "skipped pragmas skipped, _Pragma(...) removed from the token stream).  `#pragma once`: honouring it (gcc) and ignoring it "
+    "(gcc's output for the same unit with the pragma line deleted) are both accepted, the latter counted in n_pragma_once_ignored",
+    "#error and incompatible redefinitions: the expected outcome is a CompilerError; token output without a diagnostic or any other "
+    "exception is a violation.  #warning must not stop preprocessing.  Where C99 leaves the behaviour undefined or "
+    "implementation-defined (`defined` produced by macro expansion, value of '\\377') differences are only counted "
+    "(n_differs_where_c99_does_not_define/<label>)",
 ]
 CLAIM = {
     "text": "inside the bound ppci's preprocessor emits the token sequence gcc emits, for every enumerated #if expression, "
-            "conditional structure and macro definition/use combination",
+            "conditional structure and macro definition/use combination, and for every enumerated use of __LINE__/__FILE__/"
+            "__COUNTER__/__INCLUDE_LEVEL__, #line, #error, #warning, #pragma, #include (with guards and nesting), lexer corner case, "
+            "#undef / redefinition and macro argument shape; required diagnostics are CompilerErrors, never internal errors",
     "note": "trusted: gcc -E as the conforming preprocessor, the pp-token tokenizer vf/gen/ctok.py, the 64-bit reference evaluator "
             "(only for exclusion of undefined behaviour and for naming the locus)",
     "technique": "bounded exhaustive differential testing against gcc -E",
@@ -244,8 +288,8 @@ def if_unit(tree):
 class Family:
     """An indexable, lazily decoded list of units.  get(i) -> (src, info)."""
 
-    def __init__(self, name, n, get):
-        self.name, self.n, self.get = name, n, get
+    def __init__(self, name, n, get, kind=1):
+        self.name, self.n, self.get, self.kind = name, n, get, kind
 
 
 def fam_trees(name, trees):
@@ -690,6 +734,9 @@ def worker(p, shard):
     runaways = 0
     for fi, start, stop in shard:
         fam = fams[fi]
+        if fam.kind == 2:
+            worker2(p, fam.name, fi, start, stop, counters)
+            continue
         units = [fam.get(i) for i in range(start, stop)]
         # exclusion by the reference evaluator (undefined / implementation-defined in C99)
         refs = []
@@ -757,6 +804,946 @@ def worker(p, shard):
                     p.collect("macro_failures", (start + k, v[0], v[1], v[2]))
     for k, v in counters.items():
         p.count(k, v)
+
+
+# ------------------------------------------------------------------ second generation families
+#
+# A unit of these families is a dict:
+#   src     source text; "@U@" stands for the unit's file name stem (u<k>), so that `#line 5 "v@U@.c"` is attributable
+#   feat    the feature (part of the key), ctx  the context ("" = simplest context of that feature)
+#   parts   optional tuple of item ids (family L): a failing unit is reported only if no failing unit is a proper subsequence
+#   grp/cid optional: units with the same (feat, grp) are one snippet in several contexts cid; if it fails in the simplest context
+#           (cid "") the other contexts are not reported, else the key carries cid
+#   expect  "tokens" | "diag" (gcc must reject it with an error and ppci must raise CompilerError) | "any" (whatever gcc says)
+#   flags   "strict" (-std=c99 -pedantic-errors) | "gnu" (-std=c99, for GNU extensions)
+#   tol     None | ("line", [(lo, hi), ...]) | ("undef", label) | ("alt", alternative source, counter name)
+#   pragma  True: lines starting with #pragma are dropped from both outputs
+#   files   {relative path: content} written into the scratch directory in addition to HEADERS
+
+HEADERS = {
+    "inc/a.h": "int a_h;\n",
+    "inc/g.h": "#ifndef G_H\n#define G_H\ng_body\n#endif\n",
+    "inc/gd.h": "#if !defined(GD_H)\n#define GD_H 1\ngd_body\n#endif /* GD_H */\n",
+    "inc/lvl.h": "lvl __INCLUDE_LEVEL__\n",
+    "inc/fl.h": "fl __FILE__ __LINE__\n",
+    "inc/n1.h": "n1a\n#include \"n2.h\"\nn1b __LINE__ __FILE__\n",
+    "inc/n2.h": "n2a __FILE__\n#include <a.h>\nn2b __LINE__\n",
+    "inc/nl1.h": "nl1a __INCLUDE_LEVEL__\n#include \"nl2.h\"\nnl1b __INCLUDE_LEVEL__\n",
+    "inc/nl2.h": "nl2a __INCLUDE_LEVEL__\n#include <lvl.h>\nnl2b __INCLUDE_LEVEL__\n",
+    "inc/m.h": "#define FROM_M(x) (x + M_K)\n#define M_K 3\nm_h FROM_M(1)\n",
+    "inc/cond.h": "#ifdef SEL\nsel_yes SEL\n#else\nsel_no\n#endif\n",
+    "inc/self.h": "#ifndef SELF_1\n#define SELF_1\n#include \"self.h\"\nself_outer\n#elif !defined SELF_2\n#define SELF_2\n#include <self.h>\n"
+                  "self_middle\n#else\nself_inner\n#endif\n",
+    "inc/noeol.h": "no_eol_at_end",
+    "inc/loc.h": "loc_inc __FILE__\n",
+    "loc.h": "loc_cwd __FILE__\n",
+    "inc/sub/s.h": "sub_s __FILE__\n#include \"t.h\"\n",
+    "inc/sub/t.h": "sub_t __FILE__\n",
+    "inc/x-1.h": "x_1_h\n",
+    "inc/ln.h": "#line 90 \"hz.c\"\nln_h __LINE__ __FILE__\n",
+    "inc/cnt.h": "cnt_h __COUNTER__\n",
+    "inc/pn.h": "once_body\n",
+    "inc/empty.h": "",
+    "inc/open.h": "#define OPEN_H(x) [x]\nopen_h OPEN_H\n",
+    "inc/nx.h": "nx_first\n#include_next <nx.h>\nnx_first_end __FILE__\n",
+    "inc2/nx.h": "nx_second __FILE__\n",
+    "inc2/only2.h": "only_in_second_directory\n",
+}
+GCC2 = {
+    "strict": ["gcc", "-E", "-P", "-x", "c", "-std=c99", "-pedantic-errors", "-fno-diagnostics-show-caret", "-I", "inc", "-I", "inc2", "-"],
+    "gnu": ["gcc", "-E", "-P", "-x", "c", "-std=c99", "-fno-diagnostics-show-caret", "-I", "inc", "-I", "inc2", "-"],
+}
+_WORKDIR = None    # scratch directory with HEADERS; set by run() / replay() before any unit is evaluated
+_FAMS2 = {}        # family letter -> list of units (built before forking)
+
+
+def U2(src, feat, ctx="", expect="tokens", flags="strict", tol=None, pragma=False, files=None, parts=None, grp=None, cid=""):
+    return {"src": src, "feat": feat, "ctx": ctx, "expect": expect, "flags": flags, "tol": tol, "pragma": pragma,
+            "files": files, "parts": parts, "grp": grp, "cid": cid}
+
+
+# -- family L: __LINE__ / __FILE__
+
+L_DEFS = {
+    "ID": "#define ID(x) x", "LN": "#define LN __LINE__", "F": "#define F(x) x __LINE__", "S": "#define S(x) #x",
+    "XS": "#define XS(x) S(x)", "CAT": "#define CAT(x, y) x ## y", "XCAT": "#define XCAT(x, y) CAT(x, y)",
+}
+L_NEEDS = {"XS": ["S", "XS"], "XCAT": ["CAT", "XCAT"]}
+# (id, feature, text, macros used, ambiguous span (first, last physical line of the item, 0-based) or None)
+L_ITEMS = [
+    ("plain", "plain", "__LINE__", [], None),
+    ("twice", "plain", "x __LINE__ __LINE__", [], None),
+    ("empty-line", "plain", "", [], None),
+    ("directive-line", "plain", "#undef Q", [], None),
+    ("after-block-comment", "after-multi-line-comment", "/* c\n c */ __LINE__", [], None),
+    ("skipped-group", "after-skipped-group", "#if 0\nx\n\n#endif", [], None),
+    ("after-continuation", "line-splice", "a \\\n __LINE__", [], (0, 1)),
+    ("before-continuation", "line-splice", "__LINE__ \\\n b", [], (0, 1)),
+    ("splice-in-name", "line-splice", "__LI\\\nNE__", [], (0, 1)),
+    ("in-arg", "in-argument", "ID(__LINE__)", ["ID"], None),
+    ("in-nested-arg", "in-argument", "ID(ID(__LINE__))", ["ID"], None),
+    ("via-object-macro", "via-object-macro", "LN", ["LN"], None),
+    ("obj-in-arg", "in-argument", "ID(LN)", ["ID", "LN"], None),
+    ("in-body", "in-function-macro-body", "F(1)", ["F"], None),
+    ("define-then-use", "via-object-macro", "#define D2 __LINE__\n\nD2", [], None),
+    ("stringify", "stringify", "S(__LINE__)", ["S"], None),
+    ("xstringify", "in-argument", "XS(__LINE__)", ["XS"], None),
+    ("paste", "paste", "CAT(L, __LINE__)", ["CAT"], None),
+    ("xpaste", "in-argument", "XCAT(L, __LINE__)", ["XCAT"], None),
+    ("if-expr", "#if", "#if __LINE__ == @N@\nY\n#else\nN\n#endif", [], None),
+    ("multi-line-call-body", "multi-line-invocation", "F(\n2\n)", ["F"], (0, 2)),
+    ("multi-line-call-arg", "in-argument", "ID(\n__LINE__\n)", ["ID"], (0, 2)),
+    ("multi-line-call-name-alone", "multi-line-invocation", "F\n(3)", ["F"], (0, 1)),
+    ("multi-line-call-then-same-line", "multi-line-invocation", "ID(\n1\n) __LINE__", ["ID"], (0, 2)),
+    ("file", "__FILE__", "__FILE__", [], None),
+    ("file-in-arg", "__FILE__/in-argument", "ID(__FILE__)", ["ID"], None),
+    ("file-xstringify", "__FILE__/in-argument", "XS(__FILE__)", ["XS"], None),
+]
+
+
+def line_unit(seq):
+    used = []
+    for i in seq:
+        for m in L_ITEMS[i][3]:
+            for d in L_NEEDS.get(m, [m]):
+                if d not in used:
+                    used.append(d)
+    lines = [L_DEFS[d] for d in L_DEFS if d in used]
+    spans = []
+    for i in seq:
+        _id, _feat, text, _m, span = L_ITEMS[i]
+        first = len(lines) + 1
+        text = text.replace("@N@", str(first))
+        if span:
+            spans.append((first + span[0], first + span[1]))
+        lines.extend(text.split("\n"))
+    lines.append("E __LINE__")
+    feats = []
+    for i in seq:
+        if L_ITEMS[i][1] not in feats:
+            feats.append(L_ITEMS[i][1])
+    if len(feats) > 1 and "plain" in feats:
+        feats.remove("plain")
+    return U2("\n".join(lines) + "\n", "+".join(feats), tol=("line", spans) if spans else None, parts=tuple(seq))
+
+
+def fam_line(maxlen):
+    units = []
+    n = len(L_ITEMS)
+    for ln in range(1, maxlen + 1):
+        for seq in itertools.product(range(n), repeat=ln):
+            units.append(line_unit(seq))
+    return units
+
+
+# -- family K: __COUNTER__ (GNU extension)
+
+K_PRE = "#define ID(x) x\n#define TW(x) x x\n#define S(x) #x\n#define XS(x) S(x)\n#define CAT(x, y) x ## y\n#define XCAT(x, y) CAT(x, y)\n" \
+        "#define U0(x) 0\n"
+
+
+def fam_counter():
+    rows = [
+        ("plain", "__COUNTER__ __COUNTER__ __COUNTER__"),
+        ("in-argument", "ID(__COUNTER__) __COUNTER__"),
+        ("argument-used-twice", "TW(__COUNTER__) __COUNTER__"),
+        ("argument-unused", "U0(__COUNTER__) __COUNTER__"),
+        ("stringify", "S(__COUNTER__) XS(__COUNTER__) __COUNTER__"),
+        ("paste", "XCAT(a, __COUNTER__) XCAT(a, __COUNTER__) CAT(a, __COUNTER__) __COUNTER__"),
+        ("via-object-macro", "#define C __COUNTER__\nC C __COUNTER__"),
+        ("skipped-group", "#if 0\n__COUNTER__\n#endif\n__COUNTER__"),
+        ("#if", "#if __COUNTER__ >= 0\nY\n#endif\n__COUNTER__"),
+        ("#ifdef", "#ifdef __COUNTER__\nY\n#endif\n#if defined(__COUNTER__) && defined __COUNTER__\nZ\n#endif\n__COUNTER__"),
+        ("in-header", "__COUNTER__\n#include <cnt.h>\n__COUNTER__"),
+        ("multi-line-call", "ID(__COUNTER__\n+\n__COUNTER__) __COUNTER__"),
+    ]
+    units = [U2(K_PRE + t + "\n", "gnu-ext/__COUNTER__/" + f) for f, t in rows]
+    # isolated as well: gcc keeps such a definition although it rejects it, which would leak into the rest of a batch
+    for pid, text in [("__LINE__", "#define __LINE__ 3\n[__LINE__]"), ("__FILE__", "#define __FILE__ \"x\"\n[__FILE__]"),
+                      ("__STDC__", "#define __STDC__ 2\n[__STDC__]"), ("__STDC_VERSION__", "#define __STDC_VERSION__ 1L\n[__STDC_VERSION__]"),
+                      ("__COUNTER__", "#define __COUNTER__ 7\n[__COUNTER__]")]:
+        units.append(U2(text + "\n", "redefine/predefined-macro", ctx="`%s`" % pid, expect="diag", tol=("undef", "predefined-macro-as-subject-of-#define")))
+    return units
+
+
+# -- family D: #line, #error, #warning, #pragma, _Pragma, null directive
+
+GROUPS = [  # (context id, taken?, lines before, lines after)
+    ("top-level", True, [], []),
+    ("in-if-1", True, ["#if 1"], ["#endif"]),
+    ("in-else-of-if-0", True, ["#if 0", "#else"], ["#endif"]),
+    ("in-elif-1", True, ["#if 0", "#elif 1"], ["#endif"]),
+    ("in-if-0", False, ["#if 0"], ["#endif"]),
+    ("in-ifdef-undefined", False, ["#ifdef U"], ["#endif"]),
+    ("in-ifndef-defined", False, ["#define D 1", "#ifndef D"], ["#endif"]),
+    ("in-else-of-if-1", False, ["#if 1", "#else"], ["#endif"]),
+    ("in-elif-after-taken-if", False, ["#if 1", "#elif 1"], ["#endif"]),
+    ("in-else-after-taken-elif", False, ["#if 0", "#elif 1", "#else"], ["#endif"]),
+    ("nested-in-skipped-group", False, ["#if 0", "#if 1"], ["#endif", "#endif"]),
+]
+
+
+def in_group(g, body):
+    return "\n".join(["a"] + g[2] + body + g[3] + ["z __LINE__"]) + "\n"
+
+
+def fam_directives():
+    units = []
+    # #line
+    forms = [
+        ("number", "#line {n}", False), ("number-and-file", "#line {n} \"v@U@.c\"", True),
+        ("number-from-macro", "#define LNO {n}\n#line LNO", False), ("file-from-macro", "#define FN \"v@U@.c\"\n#line {n} FN", True),
+        ("both-from-one-macro", "#define LF {n} \"v@U@.c\"\n#line LF", True), ("space-after-hash", "# line {n}", False),
+        ("trailing-comment", "#line {n} // c", False), ("trailing-block-comment", "#line {n} \"v@U@.c\" /* c */", True),
+    ]
+    followers = [("same-and-next-line", "__LINE__ __FILE__\n__LINE__"), ("after-empty-lines", "\n\n__LINE__ __FILE__"),
+                 ("after-include", "x __LINE__\n#include <a.h>\n__LINE__ __FILE__")]
+    for fid, form, _named in forms:
+        for n in ("1", "7", "100", "010", "2147483000"):
+            for wid, fol in followers:
+                src = "first __LINE__\n" + form.replace("{n}", n) + "\n" + fol + "\n"
+                simplest = fid == "number" and n == "7" and wid == "same-and-next-line"
+                units.append(U2(src, "#line", ctx="" if simplest else "%s/`n=%s, %s`" % (fid, n, wid)))
+    for g in GROUPS[1:]:
+        units.append(U2(in_group(g, ["#line 50 \"v@U@.c\"", "b __LINE__ __FILE__"]), "#line", ctx="in-group/`%s`" % g[0]))
+    units.append(U2("#include <ln.h>\nafter __LINE__ __FILE__\n", "#line", ctx="in-header"))
+    units.append(U2("#line 20\n#include <ln.h>\nafter __LINE__ __FILE__\n", "#line", ctx="in-header/`after #line in the includer`"))
+    # #error / #warning
+    msgs = [("word", "stop here"), ("empty", ""), ("tokens", "\"quoted\" 1 + 2 (x"), ("comment", "stop // c")]
+    for d, flags in (("error", "strict"), ("warning", "gnu")):
+        for g in GROUPS:
+            for mid, msg in msgs:
+                body = ["#%s %s" % (d, msg) if msg else "#" + d, "b"]
+                taken = g[1]
+                expect = "diag" if (taken and d == "error") else "tokens"
+                feat = "#%s/%s" % (d, "taken" if taken else "skipped")
+                if d == "warning":
+                    feat = "gnu-ext/" + feat
+                ctx = "" if (mid == "word" and g[0] in ("top-level", "in-if-0")) else "%s/%s" % (g[0], mid)
+                units.append(U2(in_group(g, body), feat, ctx=ctx, expect=expect, flags=flags))
+    # #pragma, _Pragma
+    bodies = [("name", "#pragma foo"), ("empty", "#pragma"), ("stdc", "#pragma STDC FP_CONTRACT ON"),
+              ("macro-names", "#define A 1\n#define B(x) x\n#pragma bar A B(1) B"), ("comment", "#pragma foo // c"),
+              ("continued", "#pragma foo \\\n bar"), ("space-after-hash", "#  pragma  foo"), ("unbalanced", "#pragma foo(")]
+    for g in GROUPS:
+        for bid, body in bodies:
+            ctx = "" if (bid == "name" and g[0] in ("top-level", "in-if-0")) else "%s/%s" % (g[0], bid)
+            units.append(U2(in_group(g, body.split("\n") + ["b"]), "#pragma/" + ("taken" if g[1] else "skipped"), ctx=ctx, pragma=True))
+    ops = [("plain", "_Pragma(\"foo\") x"), ("between-tokens", "x _Pragma(\"foo\") y"), ("escapes", "_Pragma(\"foo \\\"s\\\" \\\\ bar\") x"),
+           ("from-macro", "#define P(x) _Pragma(#x)\nP(foo bar) y"), ("object-macro", "#define PO _Pragma(\"foo\")\nPO y PO"),
+           ("as-argument", "#define ID(x) x\nID(_Pragma(\"foo\") q)"), ("wide-string", "_Pragma(L\"foo\") x")]
+    for oid, op in ops:
+        units.append(U2("a\n" + op + "\nz __LINE__\n", "_Pragma", ctx="" if oid == "plain" else oid, pragma=True))
+    units.append(U2(in_group(GROUPS[4], ["_Pragma(\"foo\") x"]), "_Pragma", ctx="in-if-0", pragma=True))
+    # null directive and unknown directives in skipped groups
+    for nid, text in [("bare", "#"), ("spaces", "#   "), ("comment", "# /* c */"), ("line-comment", "# // c")]:
+        for g in (GROUPS[0], GROUPS[1], GROUPS[4]):
+            units.append(U2(in_group(g, [text, "b"]), "null-directive", ctx="" if (nid == "bare" and g[0] == "top-level") else "%s/%s" % (g[0], nid)))
+    for uid, text in [("unknown-directive", "#frobnicate 1 2"), ("non-directive-number", "# 12 x"), ("bad-if-expression", "#if 1 +\nx\n#endif"),
+                      ("bad-elif-in-nested", "#if 0\n#elif (\n#endif"), ("define-without-name", "#define"), ("include-nothing", "#include")]:
+        for g in (GROUPS[4], GROUPS[7]):
+            units.append(U2(in_group(g, text.split("\n") + ["b"]), "skipped-group/" + uid, ctx="" if g is GROUPS[4] else g[0]))
+    return units
+
+
+# -- family N: #include
+
+INC_FORMS = [
+    ("quote", ['#include "{h}"']), ("angle", ["#include <{h}>"]),
+    ("macro-to-quote", ['#define H "{h}"', "#include H"]), ("macro-to-angle", ["#define H <{h}>", "#include H"]),
+    ("function-macro-to-angle", ["#define HX(x) <x>", "#include HX({h})"]),
+    ("stringified-operand", ["#define HS(x) #x", "#include HS({h})"]),
+    ("space-after-hash", ["#  include  <{h}>"]), ("trailing-line-comment", ["#include <{h}> // c"]),
+    ("trailing-block-comment", ['#include "{h}" /* c */']), ("absolute-path", ['#include "@D@/inc/{h}"']),
+]
+# (id, feature, header name, lines before)
+INC_HEADERS = [
+    ("plain", "plain-header", "a.h", []), ("guard-ifndef", "include-guard", "g.h", []), ("guard-if-not-defined", "include-guard", "gd.h", []),
+    ("file-line", "__FILE__-and-__LINE__-in-header", "fl.h", []), ("nested", "nested-include", "n1.h", []),
+    ("level", "gnu-ext/__INCLUDE_LEVEL__", "lvl.h", []), ("nested-level", "gnu-ext/__INCLUDE_LEVEL__", "nl1.h", []),
+    ("defines-macros", "macros-from-header", "m.h", []), ("cond-undefined", "conditional-in-header", "cond.h", []),
+    ("cond-defined", "conditional-in-header", "cond.h", ["#define SEL 5"]), ("recursive", "recursive-include", "self.h", []),
+    ("no-newline-at-eof", "header-without-final-newline", "noeol.h", []), ("quote-vs-angle", "lookup-order", "loc.h", []),
+    ("subdirectory", "header-in-subdirectory", "sub/s.h", []), ("odd-name", "header-name-with-minus-and-digit", "x-1.h", []),
+    ("line-directive", "#line-in-header", "ln.h", []), ("pragma-once", "pragma-once", "po@U@.h", []), ("empty", "empty-header", "empty.h", []),
+    ("open-macro-name", "function-like-name-at-end-of-header", "open.h", []),
+]
+INC_TAIL = "after __LINE__ __FILE__"
+
+
+def inc_unit(incs, feat, ctx, parts=None):
+    """incs: [(form index, header index)]; `between __LINE__` separates two includes"""
+    lines, alt, files = [], [], {}
+    for k, (fi, hi) in enumerate(incs):
+        _id, _f, h, pre = INC_HEADERS[hi]
+        if k:
+            lines.append("between __LINE__")
+            alt.append("between __LINE__")
+        for l in pre + INC_FORMS[fi][1]:
+            lines.append(l.replace("{h}", h))
+            alt.append(l.replace("{h}", "pn.h" if h.startswith("po") else h))
+        if h.startswith("po"):
+            # gcc identifies #pragma once files by size, time stamp and content: make every copy different
+            files["inc/" + h] = "#pragma once\n/* @U@ */\n" + HEADERS["inc/pn.h"]
+    src = "\n".join(["top"] + lines + [INC_TAIL]) + "\n"
+    tol = None
+    if files:
+        tol = ("alt", "\n".join(["top"] + alt + [INC_TAIL]) + "\n", "pragma_once_ignored")
+    return U2(src, feat, ctx=ctx, tol=tol, files=files or None, parts=parts)
+
+
+def inc_feat(hd):
+    return hd[1] if hd[1].startswith("gnu-ext/") else "include/" + hd[1]
+
+
+def fam_include():
+    """Singles in quote / angle form are keyed by the header's feature, singles in the other 7 operand forms by the form; a pair is
+    reported only if neither of its headers fails alone (parts = header indices)."""
+    units = [U2("a __INCLUDE_LEVEL__\n", "gnu-ext/__INCLUDE_LEVEL__"),
+             U2("#define ID(x) x\nID(__INCLUDE_LEVEL__)\n", "gnu-ext/__INCLUDE_LEVEL__", ctx="in-argument")]
+    for hi, hd in enumerate(INC_HEADERS):
+        for fi, fm in enumerate(INC_FORMS):
+            if fi < 2:
+                gnu = hd[1].startswith("gnu-ext/")
+                units.append(inc_unit([(fi, hi)], inc_feat(hd), hd[0] + "/" + fm[0] if gnu else "" if fi == 1 else "quote-form", parts=(hi,)))
+            else:
+                units.append(inc_unit([(fi, hi)], "include/operand/" + fm[0], "" if hi == 0 else hd[0], parts=(hi, -fi)))
+    for h1, d1 in enumerate(INC_HEADERS):
+        for h2, d2 in enumerate(INC_HEADERS):
+            for fi in (0, 1):
+                feat = "include/twice/" + d1[1] if d1[2] == d2[2] else "include/%s-then-%s" % (d1[1], d2[1])
+                units.append(inc_unit([(fi, h1), (1 - fi if h1 != h2 else fi, h2)], feat.replace("gnu-ext/", ""), "" if fi == 1 else "quote-form",
+                                      parts=(h1, h2)))
+    units.append(U2("#include <open.h>\n(1) x\n", "include/function-like-name-at-end-of-header", ctx="arguments-in-includer"))
+    units.append(U2("top\n#include <only2.h>\n#include \"only2.h\"\nafter\n", "include/second-include-directory"))
+    units.append(U2("top\n#include <nx.h>\nafter __LINE__\n", "gnu-ext/#include_next", flags="gnu"))
+    units.append(U2("top\n#include \"nx.h\"\nbetween\n#include <nx.h>\nafter __LINE__\n", "gnu-ext/#include_next", ctx="twice", flags="gnu"))
+    return units
+
+
+# -- family X: lexer
+
+def lex_contexts(text, multi):
+    """(context id, source) for one snippet; multi: 0 one line, 1 several lines (no macro-body context), 2 contains a directive
+    (top level and skipped group only); a snippet that ends in a line comment gets the closing parenthesis on the next line"""
+    out = [("", "a\n%s\nz\n" % text)]
+    out.append(("in-skipped-group", "a\n#if 0\n%s\n#endif\nz\n" % text))
+    if multi == 2:
+        return out
+    if not multi:
+        out.append(("in-macro-body", "#define A %s\n[A] z\n" % text))
+    close = "\n)" if "//" in text.replace('"//"', "") else ")"
+    out.append(("in-argument", "#define f(x) <x>\nf(%s%s z\n" % (text, close)))
+    out.append(("in-stringified-argument", "#define s(x) #x\ns(%s%s z\n" % (text, close)))
+    return out
+
+
+LEX_SNIPPETS = [
+    # comments
+    ("line-comment", "b // c", 0), ("line-comment", "b // c /* d", 0), ("line-comment", "b //", 0), ("line-comment", "b //c\\\n d\n e", 1),
+    ("line-comment", "b // c '\" `", 0),
+    ("block-comment", "b /* c */ d", 0), ("block-comment", "b /* // */ d", 0), ("block-comment", "b /* c\n d */ e", 1), ("block-comment", "b /***/ d /*/ e */ g", 0),
+    ("block-comment", "b /* ' \" ` */ d", 0),
+    ("comment-chars-in-literal", "\"//\" b", 0), ("comment-chars-in-literal", "\"/*\" b \"*/\"", 0), ("comment-chars-in-literal", "'/' '*' b", 0),
+    ("hash-in-literal", "'#' \"#\" \"##\" b", 0), ("quote-in-literal", "'\"' \"'\" b", 0), ("quote-in-literal", "\"\\\"\" '\\'' b", 0),
+    ("backslash-in-literal", "\"a\\\\\" // c", 0), ("backslash-in-literal", "'\\\\' \"\\\\\\\\\" b", 0),
+    # pp-numbers
+    ("pp-number/decimal-float", "1.5", 0), ("pp-number/decimal-float", "0.5", 0), ("pp-number/decimal-float", "0.", 0), ("pp-number/decimal-float", ".5", 0), ("pp-number/decimal-float", "1.", 0), ("pp-number/decimal-float", "1.5e+3", 0),
+    ("pp-number/decimal-float", "1e-3", 0), ("pp-number/decimal-float", "1E+3", 0), ("pp-number/decimal-float", "1e3", 0), ("pp-number/decimal-float", ".5e-1", 0),
+    ("pp-number/float-suffix", "1.5f", 0), ("pp-number/float-suffix", "1.5L", 0), ("pp-number/float-suffix", "1e+3F", 0), ("pp-number/float-suffix", "1.f", 0),
+    ("pp-number/hex-float", "0x1p-2", 0), ("pp-number/hex-float", "0x1.8p+1", 0), ("pp-number/hex-float", "0x.8p1", 0), ("pp-number/hex-float", "0X1P+2f", 0),
+    ("pp-number/grammar", "1e+x", 0), ("pp-number/grammar", "1.e+x", 0), ("pp-number/grammar", "#define x 5\n1e+x 1.e+x", 2),
+    ("pp-number/grammar", "0xe+1", 0), ("pp-number/grammar", "0x1e-2", 0),
+    ("pp-number/integer-suffix", "1u 1U 1l 1L 1ul 1UL 1lu 1ll 1LL 1ull 1ULL 1llu 1LLU", 0), ("pp-number/integer-suffix", "0x1fUL 077u 0", 0),
+    ("pp-number/grammar", "1.2.3", 0), ("pp-number/grammar", "12ab", 0), ("pp-number/grammar", "1_000", 0),
+    ("pp-number/grammar", "0x", 0), ("pp-number/grammar", "08", 0), ("pp-number/grammar", "1e", 0), ("pp-number/grammar", "1..2", 0),
+    ("pp-number/grammar", "1uu", 0), ("pp-number/grammar", "1lul", 0), ("pp-number/grammar", "0b101", 0),
+    ("pp-number/then-punctuator", "1+2", 0), ("pp-number/then-punctuator", "1-2", 0), ("pp-number/then-punctuator", "1.5+x", 0), ("pp-number/then-punctuator", "x.1", 0),
+    
+    # splices inside tokens
+    ("splice/in-identifier", "b\\\nc", 1), ("splice/in-number", "1\\\n2", 1), ("splice/in-punctuator", "+\\\n+ <\\\n<\\\n= -\\\n>", 1),
+    ("splice/in-comment-opener", "b /\\\n/ c\nd", 1), ("splice/in-comment-opener", "b /\\\n* c *\\\n/ d", 1), ("splice/in-string", "\"b\\\nc\"", 1),
+    ("splice/in-char", "'\\\nb'", 1), ("splice/empty-lines", "b \\\n\\\n c", 1), ("splice/alone", "b\n\\\nc", 1),
+    # punctuators
+    ("punctuators", "[ ] ( ) { } . -> ++ -- & * + - ~ ! / % << >> < > <= >= == != ^ | && || ? : ; ... = *= /= %= += -= <<= >>= &= ^= |=", 0),
+    ("punctuators/maximal-munch", "b+++++c", 0), ("punctuators/maximal-munch", "b---c", 0), ("punctuators/maximal-munch", "b<<=c>>=d", 0),
+    ("punctuators/maximal-munch", "b->*c", 0), ("punctuators/maximal-munch", "b&&&c|||d", 0), ("punctuators/maximal-munch", "b>>>=c", 0),
+    ("punctuators/maximal-munch", "b<<<=c", 0), ("punctuators/maximal-munch", "b!==c", 0),
+    ("punctuators/dots", "b..c", 0), ("punctuators/dots", "1...2", 0), ("punctuators/dots", "b....c", 0), ("punctuators/dots", "b . c", 0), ("punctuators/dots", ". . .", 0),
+    ("punctuators/not-c", "b ~= c", 0),
+    ("digraph", "<: :> <% %>", 0), ("digraph", "b<::>c", 0),
+    ("stray-character", "b @ c", 0), ("stray-character", "b ` c", 0), ("stray-character", "b \\ c", 0),
+    # white space
+    ("white-space", "b\vc", 0), ("white-space", "b\r\nc\r", 1), ("white-space", "b\fc", 0), ("white-space", "b\t\tc", 0),
+    # literals
+    ("wide-literal", "L'b'", 0), ("wide-literal", "L\"b\"", 0), ("wide-literal", "L \"b\" Lx L", 0),
+    ("escape-sequences", "'\\x41' '\\101' '\\0' '\\n' '\\a' '\\?'", 0), ("escape-sequences", "\"\\x41\\101\\0\\n\\t\\v\\f\\r\\b\"", 0),
+    ("escape-sequences", "\"\\u00e9\\U0001F600\" '\\u00e9'", 0), ("adjacent-literals", "\"b\"\"c\" \"d\"'e'", 0), ("empty-string", "\"\" b", 0),
+    ("name-with-digits-and-underscores", "_ __ _1 b_2c B9 __x__", 0),
+]
+LEX_DIRECTIVES = [  # comments and white space at the end of / inside directive lines
+    ("define-object", "#define A 1 // c\n[A]"), ("define-object-block", "#define A 1 /* c */ + /* d */ 2\n[A]"),
+    ("define-function", "#define f(x) x // c\n[f(1)]"), ("define-multi-line-comment", "#define A 1 /* c\n d */ + 2\n[A]"),
+    ("define-comment-before-body", "#define A/* c */1\n[A]"), ("define-comment-in-parameters", "#define f(/* c */x /* d */, y) x y\n[f(1, 2)]"),
+    ("if", "#if 1 // c\nY\n#endif"), ("if-block-in-expression", "#if 1 /* c */ + 1 == 2 // d\nY\n#endif"), ("else-endif", "#if 0\nN\n#else // c\nY\n#endif // d"),
+    ("else-endif-block", "#if 0\nN\n#else /* c */\nY\n#endif /* d */"), ("elif", "#if 0\n#elif 1 // c\nY\n#endif"), ("ifdef", "#define A\n#ifdef A // c\nY\n#endif"),
+    ("ifndef", "#ifndef A /* c */\nY\n#endif"), ("undef", "#define A 1\n#undef A // c\n[A]"), ("comment-before-hash", "/* c */ #define A 1\n[A]"),
+    ("comment-after-hash", "# /* c */ define A 1\n[A]"), ("tab-after-hash", "#\tdefine\tA\t1\n[A]"), ("continued-directive", "#define A 1 \\\n + 2 \\\n\n[A]"),
+    ("continued-comment-in-define", "#define A 1 // c \\\n + 2\n[A]"), ("skipped-line-comment", "#if 0 // c\nx // y\n#else // d\nY\n#endif"),
+    ("multi-line-comment-in-skipped-group", "#if 0\n/* \n#endif\n*/\nN\n#endif\nY"), ("directive-in-comment", "/*\n#define A 1\n*/ [A]"),
+    ("hash-not-first", "b # define A 1\n[A]"), ("hash-after-comment-line-start", "/* c */ # /* d */ define A 1\n[A]"),
+]
+CHAR_IF = ["'a' == 97", "'\\n' == 10", "'\\0' == 0", "'\\x41' == 65", "'\\101' == 65", "'\\'' == 39", "'\"' == 34", "'\\\\' == 92", "L'a' == 97",
+           "'\\a' == 7", "'?' == 63", "'\\?' == 63", "' ' == 32", "'#' == 35", "'/' == 47", "'0' - '9' == -9", "'a' < 'b'", "'\\x7f' == 127",
+           "'\\t' == 9 && '\\v' == 11 && '\\f' == 12 && '\\r' == 13 && '\\b' == 8", "'A' + 1 == 'B'", "L'\\0' == 0", "'\\12' == 10", "'\\1' == 1"]
+
+
+def fam_lexer():
+    units = []
+    seen = set()
+    for feat, text, multi in LEX_SNIPPETS:
+        first = feat not in seen
+        seen.add(feat)
+        for cid, src in lex_contexts(text, multi):
+            units.append(U2(src, "lex/" + feat, ctx=cid, grp=text, cid=cid))
+    for did, text in LEX_DIRECTIVES:
+        units.append(U2("a\n" + text + "\nz\n", "lex/comment-in-directive", ctx=did))
+    for k, e in enumerate(CHAR_IF):
+        for neg in (0, 1):
+            src = "#if %s(%s)\nY\n#else\nN\n#endif\n" % ("!" if neg else "", e)
+            units.append(U2(src, "if-eval/character-constant", ctx="" if (k == 0 and not neg) else "`%s%s`" % ("!" if neg else "", e)))
+    for e, label in [("'\\377' < 0", "plain-char-signedness"), ("'\\xff' < 0", "plain-char-signedness"), ("L'\\xff' > 0", "wchar_t-signedness")]:
+        units.append(U2("#if %s\nY\n#else\nN\n#endif\n" % e, "if-eval/character-constant", ctx="`%s`" % e, tol=("undef", label)))
+    return units
+
+
+# -- family U: #undef, redefinition, defined, argument shapes, C99 examples
+
+REDEF = {
+    "A": [("ws-1", "#define A 1 + 2"), ("ws-2", "#define A 1  +  2"), ("ws-tab", "#define A\t1\t+\t2"), ("ws-comment", "#define A /* c */ 1 /* d */ + 2 // e"),
+          ("no-ws", "#define A 1+2"), ("other-token", "#define A 1 + 3"), ("empty", "#define A"), ("function-like", "#define A() 1 + 2"),
+          ("other-spelling", "#define A 1 + 02")],
+    "f": [("base", "#define f(x) x + 1"), ("ws", "#define f( x )   x  +  1"), ("param-renamed", "#define f(y) y + 1"), ("variadic", "#define f(x, ...) x + 1"),
+          ("two-params", "#define f(x, y) x + 1"), ("no-params", "#define f() x + 1"), ("object-like", "#define f (x) x + 1")],
+}
+REDEF_USE = {"function-like": "[A()]", "variadic": "[f(9, 8)]", "two-params": "[f(9, 8)]", "no-params": "[f()]", "object-like": "[f]"}
+DEFINED_EXPRS = ["defined A", "defined(A)", "defined ( A )", "(defined A)", "!defined A", "!defined(A)", "defined A && defined B", "defined(A) || defined(B)",
+                 "defined A == 1", "defined(A) + defined B == 2", "defined A ? defined B : !defined B", "defined A && !defined(B) || defined(C)",
+                 "defined(A)&&defined(B)", "defined defined_x", "- defined A < 0", "defined A != defined B", "defined\tA", "defined(\tA\t)"]
+ARG_MACROS = {
+    "f": "#define f(x) (x + 1)", "g": "#define g(x, y) y - x", "h": "#define h() 7", "v": "#define v(...) [ __VA_ARGS__ ]",
+    "w": "#define w(x, ...) x { __VA_ARGS__ }", "n": "#define n(args...) [ args ]", "m": "#define m(x, args...) x { args }",
+    "cat": "#define cat(x, y) x ## y", "c3": "#define c3(x, y, z) x ## y ## z", "pv": "#define pv(x, ...) x ## __VA_ARGS__",
+    "vp": "#define vp(x, ...) __VA_ARGS__ ## x", "lp": "#define lp(x) a ## x", "rp": "#define rp(x) x ## b", "mp": "#define mp(x) a ## x ## b",
+    "es": "#define es(x) #x", "s2": "#define s2(x) # x [x]", "sv": "#define sv(x, ...) #x #__VA_ARGS__", "LP": "#define LP (", "RP": "#define RP )",
+    "xx": "#define xx(x) x ## x",
+}
+ARG_CALLS = [
+    ("unbalanced-brackets", "f", ["f((a, b))", "f(())", "f([)", "f(])", "f({)", "f(()())", "f((,))", "f())", "f([a, b])", "f(<a, b>)"]),
+    ("unbalanced-brackets", "g", ["g((1, 2), 3)", "g([1, 2])", "g((,), (,))", "g({1, 2})"]),
+    ("parenthesis-from-macro", "f", ["f LP 1 RP", "f(LP)", "f(RP)", "f LP 1)", "f(LP RP)"]),
+    ("empty-argument", "f", ["f()", "f( )", "f(/**/)", "f(\n)", "f(// c\n)"]),
+    ("empty-argument", "g", ["g(,)", "g(1,)", "g(,2)", "g( , )", "g(/**/,/**/)"]),
+    ("empty-argument", "h", ["h()", "h( )", "h(/**/)", "h(\n)"]),
+    ("variadic", "v", ["v()", "v(1)", "v(1,2)", "v(,)", "v(,,)", "v((,),)", "v(v(1),v())", "v(f)"]),
+    ("variadic", "w", ["w(1,)", "w(,)", "w(1,2,3)", "w((1,2),(3,4))", "w(,,)", "w(1, )", "w(w(1,2),w(3,))"]),
+    ("gnu-ext/named-variadic", "n", ["n()", "n(1)", "n(1,2)", "n(,)", "n((,),)"]),
+    ("gnu-ext/named-variadic", "m", ["m(1,)", "m(,)", "m(1,2,3)", "m(1, )", "m(1)"]),
+    ("paste/pp-number", "cat", ["cat(1,2)", "cat(1,.5)", "cat(1.,5)", "cat(.,5)", "cat(1,e3)", "cat(1e,3)", "cat(0x,1)", "cat(1,u)", "cat(1.5,f)", "cat(1e,+)",
+                                 "cat(1e,+3)", "cat(0x1p,-)", "cat(1,x)", "cat(1,_)", "cat(1,.)", "cat(1.,.)", "cat(.5,e)"]),
+    ("paste/to-identifier", "cat", ["cat(x,1)", "cat(x,y)", "cat(_,1)", "cat(L,x)", "cat(x1,y2)"]),
+    ("paste/to-literal", "cat", ["cat(L,'a')"]),
+    ("paste/to-punctuator", "cat", ["cat(<,<=)", "cat(<<,=)", "cat(-,>)", "cat(+,+)", "cat(-,-)", "cat(&,&)", "cat(|,=)", "cat(>,>=)", "cat(!,=)", "cat(=,=)",
+                                    "cat(#,#)", "cat(%,=)", "cat(^,=)", "cat(*,=)", "cat(/,=)", "cat(-,=)", "cat(.,.)", "cat(/,/)"]),
+    ("placemarker/##", "cat", ["cat(,)", "cat(a,)", "cat(,b)", "cat(a,b)", "cat( , )", "cat(/**/,b)"]),
+    ("placemarker/##-twice", "c3", ["c3(%s,%s,%s)" % (x, y, z) for x in ("", "a") for y in ("", "b") for z in ("", "c")]),
+    ("placemarker/##-__VA_ARGS__", "pv", ["pv(a,b)", "pv(a,)", "pv(,b)", "pv(,)", "pv(a,b,c)", "pv(,b,c)", "pv(a,,c)"]),
+    ("placemarker/##-__VA_ARGS__", "vp", ["vp(a,b)", "vp(a,)", "vp(,b)", "vp(,)", "vp(a,b,c)", "vp(,b,c)"]),
+    ("placemarker/##-fixed-operand", "lp", ["lp()", "lp(x)", "lp(1)", "lp( )"]),
+    ("placemarker/##-fixed-operand", "rp", ["rp()", "rp(x)", "rp( )"]),
+    ("placemarker/##-fixed-operand", "mp", ["mp()", "mp(x)", "mp(_)"]),
+    ("placemarker/##-same-parameter", "xx", ["xx()", "xx(a)", "xx(+)", "xx(<)"]),
+    ("stringify-empty", "es", ["es()", "es( )", "es(/**/)", "es(\"\")", "es('\"')", "es(\"\\n\")", "es('\\\\' \"\\\\\")"]),
+    ("stringify-empty", "s2", ["s2()", "s2(a b)", "s2(  a   b  )", "s2(a\nb)", "s2(a/**/b)", "s2(a /* c */ b)"]),
+    ("stringify-variadic", "sv", ["sv(a,)", "sv(,)", "sv(a,b)", "sv(a, b)", "sv(,b)"]),
+]
+C99_EXAMPLES = [
+    ("6.10.3.5-example-3", "#define x 3\n#define f(a) f(x * (a))\n#undef x\n#define x 2\n#define g f\n#define z z[0]\n#define h g(~\n#define m(a) a(w)\n"
+     "#define w 0,1\n#define t(a) a\n#define p() int\n#define q(x) x\n#define r(x,y) x ## y\n#define str(x) # x\n"
+     "f(y+1) + f(f(z)) % t(t(g)(0) + t)(1);\ng(x+(3,4)-w) | h 5) & m\n(f)^m(m);\np() i[q()] = { q(1), r(2,3), r(4,), r(,5), r(,) };\n"
+     "char c[2][6] = { str(hello), str() };\n"),
+    ("6.10.3.5-example-4", "#define str(s) # s\n#define xstr(s) str(s)\n#define debug(s, t) printf(\"x\" # s \"= %d, x\" # t \"= %s\", \\\n x ## s, x ## t)\n"
+     "#define INCFILE(n) vers ## n\n#define glue(a, b) a ## b\n#define xglue(a, b) glue(a, b)\n#define HIGHLOW \"hello\"\n#define LOW LOW \", world\"\n"
+     "debug(1, 2);\nfputs(str(strncmp(\"abc\\0d\", \"abc\", '\\4') // this goes away\n == 0) str(: @\\n), s);\nxstr(INCFILE(2).h)\nglue(HIGH, LOW);\nxglue(HIGH, LOW)\n"),
+    ("6.10.3.5-example-5", "#define t(x,y,z) x ## y ## z\nint j[] = { t(1,2,3), t(,4,5), t(6,,7), t(8,9,),\n t(10,,), t(,11,), t(,,12), t(,,) };\n"),
+    ("6.10.3.5-example-7", "#define debug(...) fprintf(stderr, __VA_ARGS__)\n#define showlist(...) puts(#__VA_ARGS__)\n"
+     "#define report(test, ...) ((test)?puts(#test):\\\n printf(__VA_ARGS__))\ndebug(\"Flag\");\ndebug(\"X = %d\\n\", x);\nshowlist(The first, second, and third items.);\n"
+     "report(x>y, \"x is %d but y is %d\", x, y);\n"),
+    ("6.10.3.3-example-hash_hash", "#define hash_hash # ## #\n#define mkstr(a) # a\n#define in_between(a) mkstr(a)\n#define join(c, d) in_between(c hash_hash d)\n"
+     "char p[] = join(x, y);\n"),
+    ("6.10.3.4-example-nested-self-reference", "#define f(a) a*g\n#define g(a) f(a)\nf(2)(9)\n"),
+]
+
+
+def fam_misc():
+    units = []
+    undefs = [
+        ("object-like", "#define A 1\n[A]\n#undef A\n[A]"), ("never-defined", "#undef U\n[U]"), ("then-redefine", "#define A 1\n#undef A\n#define A 2\n[A]"),
+        ("function-like", "#define f(x) x\n#undef f\n[f(1)]"), ("then-ifdef", "#define A 1\n#undef A\n#ifdef A\nN\n#else\nY\n#endif"),
+        ("twice", "#define A 1\n#undef A\n#undef A\n[A]"), ("inside-expansion-chain", "#define A B\n#define B 1\n[A]\n#undef B\n[A]\n#define B 2\n[A]"),
+        ("redefine-as-other-kind", "#define A 1\n#undef A\n#define A(x) x\n[A] [A(2)]"), ("in-skipped-group", "#define A 1\n#if 0\n#undef A\n#endif\n[A]"),
+        ("name-used-as-argument", "#define f(x) x\n#define A 1\n[f(A\n#undef A\n)]"), ("in-header", "#include <m.h>\n#undef M_K\n[FROM_M(2)]"),
+    ]
+    for uid, text in undefs:
+        tol = ("undef", "directive-inside-macro-arguments") if uid == "name-used-as-argument" else None
+        units.append(U2(text + "\n", "undef", ctx="" if uid == "object-like" else uid, tol=tol))
+    for name, defs in REDEF.items():
+        for i1, d1 in defs:
+            for i2, d2 in defs:
+                units.append(U2("%s\n%s\n%s\n" % (d1, d2, REDEF_USE.get(i2, "[A]" if name == "A" else "[f(9)]")), "redefine",
+                                ctx="`%s-like: %s then %s`" % ("object" if name == "A" else "function", i1, i2), expect="any"))
+    for kind in ("if", "elif"):
+        for e in DEFINED_EXPRS:
+            for a in (0, 1):
+                for b in (0, 1):
+                    pre = ("#define A 0\n" if a else "") + ("#define B\n" if b else "")
+                    cond = "#if %s" % e if kind == "if" else "#if 0\n#elif %s" % e
+                    units.append(U2("%s%s\nY\n#else\nN\n#endif\n" % (pre, cond), "defined-operator/" + kind,
+                                    ctx="" if (e == DEFINED_EXPRS[0] and a and not b) else "`%s`/A=%d,B=%d" % (e, a, b)))
+    for did, pre in [("object-macro-paren", "#define D defined(A)"), ("object-macro-bare", "#define D defined A"),
+                     ("function-macro", "#define D IS(A)\n#define IS(x) defined(x)"), ("name-only", "#define D IS(A)\n#define IS defined")]:
+        for a in (0, 1):
+            units.append(U2("%s%s\n#if D\nY\n#else\nN\n#endif\n" % ("#define A 1\n" if a else "", pre), "defined-operator/from-expansion",
+                            ctx="%s/A=%d" % (did, a), flags="gnu", tol=("undef", "defined-produced-by-macro-expansion")))
+    for pid, text in [("function-like-name", "#define f(x) x\n#ifdef f\nY\n#endif\n#if defined f && defined(f)\nZ\n#endif"),
+                      ("__LINE__", "#ifdef __LINE__\nY\n#endif\n#if defined(__LINE__)\nZ\n#endif"), ("__FILE__", "#ifndef __FILE__\nN\n#else\nY\n#endif"),
+                      ("__STDC__", "#if defined __STDC__ && __STDC__ == 1\nY\n#endif"), ("__STDC_VERSION__", "#if __STDC_VERSION__ >= 199901L\nY\n#endif\n__STDC_VERSION__"),
+                      ("__STDC_HOSTED__", "#ifdef __STDC_HOSTED__\nY\n#endif"), ("__DATE__-__TIME__", "#if defined __DATE__ && defined(__TIME__)\nY\n#endif"),
+                      ("__VA_ARGS__", "#ifdef __VA_ARGS__\nN\n#else\nY\n#endif"), ("defined-itself", "#ifdef defined\nN\n#else\nY\n#endif")]:
+        units.append(U2(text + "\n", "defined-operator/predefined-name", ctx=pid, tol=("undef", "__VA_ARGS__-outside-variadic-macro") if pid == "__VA_ARGS__" else None))
+    seen = set()
+    for feat, macro, calls in ARG_CALLS:
+        for k, call in enumerate(calls):
+            first = feat not in seen
+            seen.add(feat)
+            pre = [ARG_MACROS[macro]]
+            if "LP" in call or "RP" in call:
+                pre += [ARG_MACROS["LP"], ARG_MACROS["RP"]]
+            if "f" in _ID.findall(call) and macro in ("v", "w"):
+                pre.append(ARG_MACROS["f"])
+            units.append(U2("\n".join(pre) + "\n[%s] z\n" % call, "args/" + feat, ctx="" if first else "`%s`" % call.replace("\n", "\\n"), flags="gnu" if feat.startswith("gnu-ext") else "strict"))
+    for eid, text in C99_EXAMPLES:
+        # the stray `@` of example 4 is a finding of family X (lex/stray-character); here it would hide the rest of the example
+        units.append(U2(text.replace("@", "at"), "c99-example", ctx=eid))
+    return units
+
+
+FAM2_NAMES = {"L": ["Q", "D2", "E"] + list(L_DEFS), "K": ["ID", "TW", "S", "XS", "CAT", "XCAT", "U0", "C"],
+              "D": ["LNO", "FN", "LF", "ID", "D", "A", "B", "P", "PO"],
+              "N": ["H", "HX", "HS", "SEL", "G_H", "GD_H", "FROM_M", "M_K", "SELF_1", "SELF_2", "OPEN_H", "ID"],
+              "X": ["A", "f", "s", "x"],
+              "U": ["A", "B", "C", "D", "IS", "f", "g", "h", "v", "w", "n", "m", "cat", "c3", "pv", "vp", "lp", "rp", "mp", "es", "s2", "sv", "LP", "RP", "xx",
+                    "FROM_M", "M_K", "x", "z", "t", "p", "q", "r", "str", "xstr", "debug", "INCFILE", "glue", "xglue", "HIGHLOW", "LOW", "showlist",
+                    "report", "hash_hash", "mkstr", "in_between", "join"]}
+
+
+def families2(tier):
+    return {"L": fam_line(2 if tier == "quick" else 3), "K": fam_counter(), "D": fam_directives(), "N": fam_include(), "X": fam_lexer(),
+            "U": fam_misc()}
+
+
+# -- running gcc on a batch of second generation units
+
+_UNAME = re.compile(r"\b[uv]u?(\d+)\.c\b")
+_DIAGLINE = re.compile(r"^(\S+?):(?:\d+:)*(?:\d+:)? (fatal error|error|warning): ")
+_PRAGMA_LINE = re.compile(r"(?m)^[ \t]*#[ \t]*pragma\b.*$")
+MAIN2 = "vfmain.c"
+
+
+def unit_text(u, k):
+    return u["src"].replace("@U@", "u%d" % k).replace("@D@", _WORKDIR or "")
+
+
+def write_files(d, files, k=None):
+    for rel, content in files.items():
+        if k is not None:
+            rel = rel.replace("@U@", "u%d" % k)
+            content = content.replace("@U@", "u%d" % k)
+        path = os.path.join(d, rel)
+        os.makedirs(os.path.dirname(path), exist_ok=True)
+        with open(path, "w") as f:
+            f.write(content)
+
+
+def _gcc2_once(entries, fam, flags, pragma, counters):
+    """entries: [(id, text)] -> (rc, {id: tokens}, markers complete and in order, ids with errors, ids with warnings,
+    {id: [messages]}, every diagnostic attributed)"""
+    from vf.gen.ctok import tokenize, split_at_markers
+    counters["gcc_processes"] = counters.get("gcc_processes", 0) + 1
+    undefs = "".join("#undef %s\n" % n for n in FAM2_NAMES[fam])
+    parts = []
+    for k, text in entries:
+        parts.append("#line 1 \"u%d.c\"\n%s%s#line 1 \"%s\"\n%s%d\n" % (k, text, undefs, MAIN2, MARK, k))
+    env = dict(os.environ, LC_ALL="C")
+    r = subprocess.run(GCC2[flags], input="".join(parts), capture_output=True, text=True, env=env, cwd=_WORKDIR)
+    out = r.stdout
+    if pragma:
+        out = _PRAGMA_LINE.sub("", out)
+    units, order, rest = split_at_markers(tokenize(out), MARK)
+    ids = [k for k, _ in entries]
+    errs, warns, msgs = set(), set(), {}
+    attributed = True
+    ctx_unit = None
+    for line in r.stderr.splitlines():
+        names = [int(x) for x in _UNAME.findall(line)]
+        if line.startswith("In file included from") or line.startswith("                 from"):
+            if names:
+                ctx_unit = names[-1]
+            continue
+        m = _DIAGLINE.match(line)
+        if not m:
+            if not (": note: " in line or line.startswith(" ") or not line.strip()):
+                attributed = False
+            continue
+        fname = m.group(1)
+        if names and _UNAME.search(fname):
+            k = int(_UNAME.search(fname).group(1))
+            ctx_unit = None
+        elif ctx_unit is not None and (fname in HEADERS or fname.startswith(("inc/", "inc2/", _WORKDIR + "/")) or fname == "hz.c"):
+            k = ctx_unit
+        else:
+            attributed = False
+            continue
+        (warns if m.group(2) == "warning" else errs).add(k)
+        msgs.setdefault(k, []).append(line)
+    if os.environ.get("VF_C26_DEBUG") and (not attributed or (order != ids)):
+        print("GCC2", fam, flags, "n", len(ids), "order-ok", order == ids, "rest", rest[:10], "\n" + r.stderr[:1500])
+    return r.returncode, units, order == ids and not rest, errs, warns, msgs, attributed
+
+
+def gcc2(entries, fam, flags, pragma, counters, isolate=False):
+    """[(id, text)] -> {id: (status, tokens, messages)}; status: "clean" (no diagnostic), "warning", "error".
+    One gcc process for the batch; the result is accepted only if a second run without the diagnosed units is silent
+    and gives the same tokens for the remaining units.  Anything else: bisection."""
+    res = {}
+    if not entries:
+        return res
+    if len(entries) == 1 or isolate:
+        for k, text in entries:
+            rc, units, ok, errs, warns, msgs, att = _gcc2_once([(k, text)], fam, flags, pragma, counters)
+            toks = units.get(k) if ok else None
+            if rc != 0 or errs or toks is None:
+                res[k] = ("error", toks, msgs.get(k, []))
+            elif warns or msgs or not att:
+                res[k] = ("warning", toks, msgs.get(k, []))
+            else:
+                res[k] = ("clean", toks, [])
+        return res
+    rc, units, ok, errs, warns, msgs, attributed = _gcc2_once(entries, fam, flags, pragma, counters)
+    if ok and attributed and rc == 0 and not errs and not warns:
+        return {k: ("clean", units[k], []) for k, _ in entries}
+    if ok and attributed and (errs or warns):
+        bad = errs | warns
+        good = [(k, t) for k, t in entries if k not in bad]
+        rc2, units2, ok2, errs2, warns2, _m2, att2 = _gcc2_once(good, fam, flags, pragma, counters) if good else (0, {}, True, set(), set(), {}, True)
+        if rc2 == 0 and ok2 and att2 and not errs2 and not warns2 and all(units2[k] == units[k] for k, _ in good):
+            for k, _ in good:
+                res[k] = ("clean", units2[k], [])
+            for k in bad:
+                res[k] = ("error" if k in errs else "warning", units[k], msgs.get(k, []))
+            return res
+    counters["gcc_bisections"] = counters.get("gcc_bisections", 0) + 1
+    if os.environ.get("VF_C26_DEBUG"):
+        print("BISECT", fam, flags, len(entries), "rc", rc, "ok", ok, "attributed", attributed, "errs", sorted(errs), "warns", sorted(warns))
+    half = len(entries) // 2
+    res.update(gcc2(entries[:half], fam, flags, pragma, counters))
+    res.update(gcc2(entries[half:], fam, flags, pragma, counters))
+    return res
+
+
+@contextlib.contextmanager
+def _in_dir(d):
+    old = os.getcwd()
+    os.chdir(d)
+    try:
+        yield
+    finally:
+        os.chdir(old)
+
+
+def ppci_unit2(src, name, pragma):
+    """-> ("ok", token values, printed text) | ("exc", exception); runs inside the scratch directory, include path `inc`"""
+    from ppci.lang.c import CPreProcessor, COptions, CTokenPrinter
+    from ppci.lang.c.utils import LineInfo
+    from vf.core import cpu_limit, CpuTimeout
+    try:
+        with _in_dir(_WORKDIR), cpu_limit(CPU_LIMIT):
+            opts = COptions()
+            opts.add_include_path("inc")
+            opts.add_include_path("inc2")
+            pre = CPreProcessor(opts)
+            toks = []
+            for t in pre.process_file(io.StringIO(src), name):
+                if isinstance(t, LineInfo):
+                    continue
+                toks.append(t)
+                if len(toks) > 5000:
+                    raise Runaway("more than 5000 tokens produced")
+            if pragma:
+                # a preprocessor may pass `#pragma ...` lines on; drop them as in gcc's output
+                kept, skipping = [], False
+                for i, t in enumerate(toks):
+                    if t.first:
+                        nxt = [x for x in toks[i + 1:i + 3] if x.typ not in ("WS", "BOL")]
+                        skipping = t.typ == "#" and bool(nxt) and nxt[0].val == "pragma" and not nxt[0].first
+                    if not skipping:
+                        kept.append(t)
+                toks = kept
+            f = io.StringIO()
+            CTokenPrinter().dump(toks, file=f)
+    except CpuTimeout:
+        return ("exc", Runaway("CPU limit of %d s exceeded" % CPU_LIMIT))
+    except Exception as ex:  # noqa
+        return ("exc", ex)
+    return ("ok", [t.val for t in toks if t.typ not in ("WS", "BOL")], f.getvalue())
+
+
+_DEC = re.compile(r"^[0-9]+$")
+_FILE_NORM = re.compile(r"\b([uv])u?\d+\.c\b")
+
+
+def diff_symptom(src, vals, g):
+    if len(vals) == len(g):
+        diff = [(a, b) for a, b in zip(vals, g) if a != b]
+        if diff and all(_DEC.match(a) and _DEC.match(b) for a, b in diff):
+            return "wrong-number"
+        if diff and all(a[:1] == '"' and b[:1] == '"' for a, b in diff):
+            if all(a.replace(" ", "") == b.replace(" ", "") for a, b in diff):
+                return "stringify/spacing"
+            return "wrong-string"
+    s = wrong_symptom(src, vals, g)
+    return "different-tokens" if s == "tokens" else s
+
+
+def within_spans(vals, g, spans):
+    """ppci differs from gcc only in decimal numbers, and each such pair lies inside one ambiguous line span."""
+    if len(vals) != len(g):
+        return False
+    for a, b in zip(vals, g):
+        if a == b:
+            continue
+        if not (_DEC.match(a) and _DEC.match(b)):
+            return False
+        if not any(lo <= int(a) <= hi and lo <= int(b) <= hi for lo, hi in spans):
+            return False
+    return True
+
+
+def judge2(u, k, gres, galt=None):
+    """-> None (agrees / outside the property) | ("count", counter name) | (kind, symptom, what)"""
+    from vf.gen.ctok import tokenize
+    from ppci.common import CompilerError
+    from vf.core import exc_key
+    src = unit_text(u, k)
+    status, g, msgs = gres
+    expect = u["expect"]
+    if expect == "any":
+        if status == "error":
+            if not any("redefined" in m for m in msgs):
+                return ("count", "excluded_gcc_rejects")
+            expect = "diag"
+        else:
+            expect = "tokens"
+    if expect == "diag":
+        if status != "error":
+            return ("count", "expected_diagnostic_but_gcc_accepts")
+    elif status == "error":
+        return ("count", "excluded_gcc_rejects")
+    elif status == "warning" and not u["feat"].startswith("gnu-ext/#warning/taken"):
+        return ("count", "excluded_gcc_warns")
+    r = ppci_unit2(src, "u%d.c" % k, u["pragma"])
+    one = src.replace("\n", "\\n").replace("\r", "\\r").replace("\v", "\\v").replace("\f", "\\f").replace("\t", "\\t")
+    if expect == "diag":
+        first = (msgs[0].split(": ", 1)[-1] if msgs else "an error")
+        if r[0] == "ok" and u["tol"] and u["tol"][0] == "undef":
+            return ("count", "differs_where_c99_does_not_define/" + u["tol"][1])
+        if r[0] == "ok":
+            return ("no-diagnostic", "no-diagnostic", "ppci accepts `%s` silently and gives `%s`; a diagnostic is required (gcc: %s)" % (one, short(r[1]), first))
+        ex = r[1]
+        if isinstance(ex, CompilerError):
+            return None
+        if isinstance(ex, Runaway):
+            return ("runaway", "runaway", "ppci does not terminate on `%s` (%s); gcc: %s" % (one, ex, first))
+        return ("crash", exc_key("internal-error-instead-of-diagnostic", ex),
+                "ppci raises %s(%s) on `%s` instead of a CompilerError; gcc: %s" % (type(ex).__name__, ex, one, first))
+    tol = u["tol"]
+    if r[0] == "exc":
+        ex = r[1]
+        if isinstance(ex, CompilerError):
+            v = ("rejects", "rejects/" + caller_of_error(ex),
+                 "ppci rejects `%s` with CompilerError(%s); gcc accepts it and gives `%s`" % (one, ex.msg, short(g)))
+        elif isinstance(ex, Runaway):
+            v = ("runaway", "runaway", "ppci does not terminate on `%s` (%s); gcc gives `%s`" % (one, ex, short(g)))
+        else:
+            v = ("crash", exc_key("crash", ex), "ppci raises %s(%s) on `%s`; gcc gives `%s`" % (type(ex).__name__, ex, one, short(g)))
+        if tol and tol[0] == "undef":
+            return ("count", "differs_where_c99_does_not_define/" + tol[1])
+        return v
+    vals, text = r[1], r[2]
+    if vals != g:
+        if tokenize(" ".join(vals)) != vals:
+            if tokenize(" ".join(vals)) == g:
+                # the same characters, but ppci made one token of what are several preprocessing tokens for gcc
+                return ("wrong", "merges-tokens", "`%s`: ppci gives `%s`, gcc gives `%s`" % (one, short(vals, 24), short(g, 24)))
+            return ("unclassified", "tokenizer", "ppci token values %r do not re-lex to themselves" % (vals,))
+        if tol:
+            if tol[0] == "line" and within_spans(vals, g, tol[1]):
+                return ("count", "line_policy_differs_from_gcc")
+            if tol[0] == "undef":
+                return ("count", "differs_where_c99_does_not_define/" + tol[1])
+            if tol[0] == "alt" and galt is not None and galt[0] == "clean" and \
+                    [_FILE_NORM.sub(r"\1.c", t) for t in vals] == [_FILE_NORM.sub(r"\1.c", t) for t in galt[1]]:
+                return ("count", tol[2])
+        return ("wrong", diff_symptom(src, vals, g), "`%s`: ppci gives `%s`, gcc gives `%s`" % (one, short(vals, 24), short(g, 24)))
+    printed = tokenize(_PRAGMA_LINE.sub("", text) if u["pragma"] else text)
+    if printed != g:
+        return ("print", "print/glue-" + glue_kind(printed, g),
+                "`%s`: the token stream is right but the text written by CTokenPrinter, `%s`, re-lexes to `%s` (gcc prints `%s`)"
+                % (one, text.strip().replace("\n", "\\n"), short(printed), short(g)))
+    return None
+
+
+
+
+def worker2(p, fam, fi, start, stop, counters):
+    units = _FAMS2[fam]
+    idx = list(range(start, stop))
+    for flags in ("strict", "gnu"):
+        for pragma in (False, True):
+            sel = [k for k in idx if units[k]["flags"] == flags and units[k]["pragma"] == pragma]
+            if not sel:
+                continue
+            entries = [(k, unit_text(units[k], k)) for k in sel]
+            alts = [(k, units[k]["tol"][1].replace("@U@", "u%d" % k).replace("@D@", _WORKDIR)) for k in sel if units[k]["tol"] and units[k]["tol"][0] == "alt"]
+            gres = gcc2(entries, fam, flags, pragma, counters, isolate=(fam == "K"))
+            # alternative conforming behaviour: the same preprocessor on the alternative source, ids shifted behind the family
+            galt = gcc2([(k + len(units), t) for k, t in alts], fam, flags, pragma, counters) if alts else {}
+            for k in sel:
+                u = units[k]
+                order = (fi << 32) | k
+                v = judge2(u, k, gres[k], galt.get(k + len(units)))
+                if v is not None and v[0] == "count":
+                    p.count(v[1])
+                    if v[1].startswith("excluded") and p.counters[v[1]] <= 4:
+                        p.collect("excluded_examples", "%s: %s -- %s" % (v[1], unit_text(u, k).replace("\n", "\\n")[:120], "; ".join(gres[k][2])[:160]))
+                    if v[1].startswith(("differs_where", "line_policy", "pragma_once")) and p.counters[v[1]] <= 2:
+                        p.collect("tolerated_examples", "%s: %s" % (v[1], unit_text(u, k).replace("\n", "\\n")[:160]))
+                    if v[1].startswith("excluded") or v[1].startswith("expected_diagnostic"):
+                        continue
+                    p.add()
+                    p.count("units_" + fam)
+                    continue
+                p.add()
+                p.count("units_" + fam)
+                if v is not None and v[0] == "unclassified":
+                    p.count("unclassified_tokenizer")
+                    p.collect("unclassified_examples", v[2][:200])
+                    continue
+                g = gres[k][1] or []
+                p.outcome((fam, u["feat"], gres[k][0], tuple(_FILE_NORM.sub(r"\1.c", t) for t in g)))
+                if v is not None:
+                    p.collect("fam2_failures", (fam, k, v[0], v[1], v[2]))
+
+
+def witness2(fam, k):
+    u = _FAMS2[fam][k]
+    w = {"gen": 2, "fam": fam, "k": k, "src": u["src"], "feat": u["feat"], "ctx": u["ctx"], "expect": u["expect"], "flags": u["flags"],
+         "pragma": u["pragma"]}
+    if u["tol"]:
+        w["tol"] = list(u["tol"])
+    if u["files"]:
+        w["files"] = u["files"]
+    return w
+
+
+def is_subsequence(a, b):
+    it = iter(b)
+    return all(x in it for x in a)
+
+
+def key_fam2_failures(ctx, fails, fam_order):
+    """Keys: <feature>/<symptom> when the feature fails in its simplest context, else <feature>/<context>/<symptom>;
+    family L: only failing units none of whose proper sub-sequences fails.  Symptoms shared with the first generation
+    (stringify spacing, text printer glue) keep their first generation keys."""
+    by_fam = {}
+    for f in fails:
+        by_fam.setdefault(f[0], []).append(f)
+    n_sub = 0
+    for fam, fl in by_fam.items():
+        units = _FAMS2[fam]
+        fl.sort(key=lambda f: f[1])
+        failing_parts = {units[f[1]]["parts"] for f in fl if units[f[1]]["parts"]}
+        base = {}     # (feat, symptom) fails in the simplest context
+        grp_base = set()
+        for _fam, k, kind, sym, what in fl:
+            if units[k]["ctx"] == "":
+                base[(units[k]["feat"], sym)] = True
+            if units[k]["grp"] is not None and units[k]["cid"] == "":
+                grp_base.add((units[k]["feat"], units[k]["grp"]))
+        for _fam, k, kind, sym, what in fl:
+            u = units[k]
+            if u["parts"] and any(len(q) < len(u["parts"]) and is_subsequence(q, u["parts"]) for q in failing_parts):
+                n_sub += 1
+                continue
+            if u["grp"] is not None and u["cid"] != "" and (u["feat"], u["grp"]) in grp_base:
+                n_sub += 1
+                continue
+            if sym == "stringify/spacing" or sym.startswith("print/glue-"):
+                key = "macro/" + sym
+            elif sym == "rejects/preprocessor.py:concat" and u["feat"] == "args/paste/pp-number":
+                key = "macro/" + sym     # first generation key: a paste whose result is a pp-number but not a C number
+            else:
+                prefix = "line/" if fam == "L" else ""
+                if fam == "L" and sym in ("wrong-number", "wrong-string", "different-tokens") and "gives" in what:
+                    sym = "wrong-value"
+                if u["ctx"] == "" or (u["feat"], sym) in base:
+                    key = "%s%s/%s" % (prefix, u["feat"], sym)
+                else:
+                    c = u["ctx"]
+                    if c.startswith("`") or "/`" in c or "=" in c:
+                        # the context is a concrete operand, not a named situation: one key per feature and symptom
+                        c = c.split("/`")[0] if "/`" in c else ""
+                        c = "" if c.startswith("`") or "=" in c else c
+                    key = "%s%s/%s%s" % (prefix, u["feat"], c + "/" if c else "", sym)
+            ctx.violation(key, what, witness2(fam, k), order=(fam_order[fam] << 32) | k)
+    ctx.note("second_generation_failing_units", len(fails))
+    ctx.note("line_family_failures_with_a_failing_subsequence", n_sub)
+
+
+def replay2(w):
+    global _WORKDIR
+    from vf.core import scratch
+    fam, k = w["fam"], w["k"]
+    u = {"src": w["src"], "feat": w["feat"], "ctx": w["ctx"], "expect": w["expect"], "flags": w["flags"], "pragma": w["pragma"],
+         "tol": tuple(w["tol"]) if w.get("tol") else None, "files": w.get("files"), "parts": None}
+    with scratch(ID + "r") as d:
+        _WORKDIR = d
+        write_files(d, HEADERS)
+        if u["files"]:
+            write_files(d, u["files"], k)
+        counters = {}
+        gres = gcc2([(k, unit_text(u, k))], fam, u["flags"], u["pragma"], counters)[k]
+        galt = None
+        if u["tol"] and u["tol"][0] == "alt":
+            galt = gcc2([(k + 1, u["tol"][1].replace("@U@", "u%d" % k).replace("@D@", d))], fam, u["flags"], u["pragma"], counters)[k + 1]
+        v = judge2(u, k, gres, galt)
+    if v is None:
+        return False, "ppci and gcc agree (gcc: %s, `%s`)" % (gres[0], short(gres[1] or []))
+    if v[0] == "count":
+        return False, "outside the property or tolerated: " + v[1]
+    if v[0] == "unclassified":
+        return False, v[2]
+    return True, "%s: %s" % (v[1], v[2])
 
 
 # ------------------------------------------------------------------ bounds per tier
@@ -871,7 +1858,7 @@ def key_parse_failures(ctx, fails):
 
 
 def run(ctx):
-    global _FAMS
+    global _FAMS, _WORKDIR
     fams, munits, s1, s2 = families(ctx.tier, ctx.seed)
     batch = BATCH if ctx.quick else 4 * BATCH
     items = []
@@ -884,10 +1871,31 @@ def run(ctx):
     for name in ("I1", "C", "I2a", "M"):
         fam = [f for f in fams if f.name == name][0]
         ctx.sample({"family": fam.name, "unit": fam.get(fam.n // 2)[0]})
+    n1 = len(fams)
+    _FAMS2.clear()
+    _FAMS2.update(families2(ctx.tier))
+    fam_order = {}
+    for letter, units2 in _FAMS2.items():
+        fam_order[letter] = len(fams)
+        fams.append(Family(letter, len(units2), None, kind=2))
+        for start in range(0, len(units2), BATCH):
+            items.append((fam_order[letter], start, min(len(units2), start + BATCH)))
+        ctx.sample({"family": letter, "unit": units2[len(units2) // 2]["src"]})
+    ctx.note("units_per_family", {f.name: f.n for f in fams})
+    ctx.note("line_family_bound", "sequences of <=%d items of %d" % (2 if ctx.quick else 3, len(L_ITEMS)))
     _FAMS = fams
-    ctx.pmap(worker, items)
+    from vf.core import scratch
+    with scratch(ID) as d:
+        _WORKDIR = d
+        write_files(d, HEADERS)
+        for units2 in _FAMS2.values():
+            for k, u in enumerate(units2):
+                if u["files"]:
+                    write_files(d, u["files"], k)
+        ctx.pmap(worker, items)
     fails = ctx.sets.pop("macro_failures", set())
-    key_macro_failures(ctx, munits, fails, len(fams) - 1)
+    key_macro_failures(ctx, munits, fails, n1 - 1)
+    key_fam2_failures(ctx, sorted(ctx.sets.pop("fam2_failures", set())), fam_order)
     key_parse_failures(ctx, ctx.sets.pop("parse_failures", set()))
     if ctx.counters.get("skipped_after_runaways"):
         ctx.cap("%d macro units skipped after %d non-terminating units in a worker" % (ctx.counters["skipped_after_runaways"], RUNAWAY_BREAKER))
@@ -896,6 +1904,8 @@ def run(ctx):
 
 
 def replay(w):
+    if w.get("gen") == 2:
+        return replay2(w)
     src = w["src"]
     g = gcc_units([src])[0]
     if g is None:
